@@ -258,7 +258,7 @@ DUMP = {"active": None, "inject": None}     # active: dict of the dump being rec
 def _dump_handler(orig, self, a, kw):
     import os
     f = a[0] if a else kw.get("f")
-    if not isinstance(f, str) or "://" in f:
+    if not isinstance(f, str) or "://" in f or DUMP["active"] is not None:      # (a dump() calling the shared one: the outer call is recorded)
         return orig(self, *a, **kw)
     existed = os.path.exists(f)
     rec = {"path": f, "events": [], "n": 0, "top": 0, "nested": 0, "in_ser": 0, "failAt": 0}
@@ -327,7 +327,13 @@ def install_dump():
                 if name.startswith("_validate") and callable(fn):
                     _wrap_validator(cls, name)
     wrap(productmd.common.MetadataBase, "dump", _dump_handler)
-    wrap(productmd.treeinfo.TreeInfo, "dump", _dump_handler)
+    # ... and every class that brings a dump() of its own (TreeInfo does at the pinned commit; others may come): the outermost
+    # recorded call is the spec action, inner ones pass through (depth counter)
+    for mod in mods:
+        for cname, cls in inspect.getmembers(mod, inspect.isclass):
+            if cls.__module__ == mod.__name__ and cls is not productmd.common.MetadataBase and "dump" in vars(cls) \
+                    and issubclass(cls, productmd.common.MetadataBase):
+                wrap(cls, "dump", _dump_handler)
     real_open = builtins.open
 
     def vopen(path, mode="r", *a, **kw):
